@@ -77,6 +77,43 @@ def run(ctx):
         jobs.append(("conv", {"type": "Decimal", "text": text, "args": args}))
     jobs.append(("unconv", {"type": "Decimal", "value": "decimal.Decimal('1E+2')"}))
     jobs.append(("conv", {"type": "String", "text": "a &amp; b &lt;c&gt;", "args": [32]}))
+    # directed: the renamed children (FROM / YIELD) - groom()/ungroom() must work on copies at every level
+    mins, _ = dc.mindocs(ctx)
+    from c13 import add_child
+    for cls, attr, parents in (("MAIL", "frm", ["MAILRQ"]), ("MFINFO", "yld", ["SECLIST"]), ("STOCKINFO", "yld", ["SECLIST"])):
+        a = next(x for x in schema[cls]["attrs"] if x["a"] == attr)
+        node = add_child(mins[cls], cls, a, schema, types, mins)
+        docs_ = [dc.from_nested(node)]
+        for par in parents:
+            pa = next((x for x in schema[par]["attrs"] if x["cls"] == cls), None)
+            if pa is not None:
+                pn = add_child(mins[par], par, pa, schema, types, mins)
+                pn[2] = [node if k[0] == cls else k for k in pn[2]]
+                docs_.append(dc.from_nested(pn))
+        for d_ in docs_:
+            xml = dc.render_text(d_, "xml")
+            jobs.append(("convert", xml))
+            jobs.append(("to_etree", {"xml": xml}))
+            jobs.append(("serialize", {"xml": xml, "version": 203, "pretty": False, "close": True}))
+    # directed: the same instant written in different zones (equal as values, different as texts), in every order
+    for inst_ in ("2020,1,2,3,4,5,678900", "1999,12,31,23,59,59,999999", "2024,2,29,12,0,0,0"):
+        for off, nm in ((0, "UTC"), (-300, "EST"), (330, "IST"), (840, "LINT"), (-30, "X")):
+            jobs.append(("unconv", {"type": "DateTime",
+                                    "value": "datetime.datetime(%s,tzinfo=datetime.timezone.utc).astimezone(datetime.timezone(datetime.timedelta(minutes=%d),'%s'))" % (inst_, off, nm)}))
+            jobs.append(("unconv", {"type": "Time",
+                                    "value": "datetime.datetime(%s,tzinfo=datetime.timezone.utc).astimezone(datetime.timezone(datetime.timedelta(minutes=%d),'%s')).timetz()" % (inst_, off, nm)}))
+    # date-time heavy documents through the class-level (shared) converters, for the threaded runs
+    heavy = []
+    for k in range(24):
+        trn = []
+        for j in range(3):
+            d0 = "2020%02d%02d%02d%02d%02d.%03d[%+d:Z]" % (1 + (k + j) % 12, 1 + (3 * k + j) % 28, (k + j) % 24, (7 * k) % 60, (11 * j + k) % 60, (37 * k + j) % 1000, (k % 25) - 12)
+            trn.append(["STMTTRN", None, [["TRNTYPE", "DEBIT", []], ["DTPOSTED", d0, []], ["DTUSER", d0[:14], []], ["DTAVAIL", d0[:8], []],
+                                          ["TRNAMT", "-%d.%02d" % (k, j), []], ["FITID", "id%d-%d" % (k, j), []]]])
+        heavy.append(dc.render_text(dc.from_nested(["BANKTRANLIST", None, [["DTSTART", "20200101", []], ["DTEND", "2020%02d01120000" % (1 + k % 12), []]] + trn]), "xml"))
+    for xml in heavy:
+        jobs.append(("convert", xml))
+        jobs.append(("to_etree", {"xml": xml}))
     rnd.shuffle(jobs)
     evs = []
 
@@ -111,7 +148,8 @@ def run(ctx):
             barrier = threading.Barrier(nthreads)
 
             def work(k, nthreads=nthreads):
-                mine = list(jobs[: (200 if quick else 1200)])
+                mine = list(jobs[: (200 if quick else 1200)]) + [("convert", x) for x in heavy] * (6 if quick else 20) \
+                    + [("to_etree", {"xml": x}) for x in heavy] * (2 if quick else 6)
                 random.Random(k).shuffle(mine)
                 barrier.wait()
                 for fn, payload in mine:
